@@ -612,6 +612,25 @@ func ruleHandlerNeverNil(c *Ctx, rule string) {
 								okShape = true
 							}
 						}
+						// the inverted form (`if handler != nil { return checked }; return empty`): the literal lies on the
+						// nil side of the test and cannot be reached from the other side
+						for _, b2 := range beh.Blocks {
+							iff, isIf := b2.Instrs[len(b2.Instrs)-1].(*ssa.If)
+							if !isIf {
+								continue
+							}
+							bo, isB := iff.Cond.(*ssa.BinOp)
+							if !isB || (bo.Op != token.EQL && bo.Op != token.NEQ) || !(isNilConst(bo.X) || isNilConst(bo.Y)) {
+								continue
+							}
+							nilSide, other := b2.Succs[0], b2.Succs[1]
+							if bo.Op == token.NEQ {
+								nilSide, other = other, nilSide
+							}
+							if (nilSide == al.Block() || nilSide.Dominates(al.Block())) && len(nilSide.Preds) == 1 && !reachable(other, al.Block()) {
+								okShape = true
+							}
+						}
 					}
 				}
 			}
